@@ -57,6 +57,7 @@ type FuncContract struct {
 	AllocBound bool // every make in the function is bounded by the unread bytes of its kbin.Reader
 	Unfolds  []Clause // spec-function instances unfolded at function entry
 	AbstractMul bool  // encode * as an uninterpreted function in this function's obligations
+	MemConst    bool  // memories as declared constants with equations instead of macros (quantifier-heavy proofs)
 	Pure     bool
 	Loops    map[int]*LoopSpec
 	Sites    []SiteSpec
@@ -289,6 +290,8 @@ func ParseSpecFile(fset *token.FileSet, f *ast.File) (*SpecFile, error) {
 			case "abstract":
 				if rest == "mul" {
 					cur.AbstractMul = true
+				} else if rest == "memconst" {
+					cur.MemConst = true
 				} else {
 					return nil, fmt.Errorf("%s:%d: unknown abstraction %q", sf.Path, d.line, rest)
 				}
